@@ -101,8 +101,21 @@ func repoKinds() []repoKind {
 			r := asset.NewInMemoryRepository()
 			return r, func() string { return core.Dump(r) }, func() {}
 		}},
-		{name: "filesystem", inits: []string{"empty", "empty-file-A", "header-only-A"}, open: func(init string) (asset.Repository, func() string, func()) {
+		{name: "filesystem", inits: []string{"empty", "empty-file-A", "header-only-A", "base-path-with-pattern-characters"}, open: func(init string) (asset.Repository, func() string, func()) {
 			dir := mustTempDir("c10")
+			top := dir
+			switch init {
+			case "base-path-with-pattern-characters":
+				// the base directory is a path, not a pattern: "r[1]*? e" is a legal directory name, and the sibling "r1 e"
+				// (which a glob reading of the base would match) holds an asset of another repository
+				sib := filepath.Join(top, "r1 e")
+				os.Mkdir(sib, 0o700)
+				os.WriteFile(filepath.Join(sib, "Q.csv"), []byte("Date,Open,High,Low,Close,Volume\n2021-03-01,1,1,1,1,1\n"), 0o600)
+				dir = filepath.Join(top, "r[1]*? e")
+				if err := os.Mkdir(dir, 0o700); err != nil {
+					panic(err)
+				}
+			}
 			switch init {
 			case "empty-file-A":
 				os.WriteFile(filepath.Join(dir, "A.csv"), nil, 0o600)
@@ -110,7 +123,7 @@ func repoKinds() []repoKind {
 				os.WriteFile(filepath.Join(dir, "A.csv"), []byte("Date,Open,High,Low,Close,Volume\n"), 0o600)
 			}
 			r := asset.NewFileSystemRepository(dir)
-			return r, func() string { return dirState(dir) }, func() { os.RemoveAll(dir) }
+			return r, func() string { return dirState(dir) }, func() { os.RemoveAll(top) }
 		}},
 		{name: "sql", inits: []string{"empty"}, open: func(string) (asset.Repository, func() string, func()) {
 			dsn := fmt.Sprintf("c10-%d-%d", os.Getpid(), atomic.AddInt64(&repoSeq, 1))
